@@ -166,12 +166,12 @@ def units():
 
 
 META = dict(
-    technique='CBMC 6.11 function + loop contracts (dfcc) on the six writeImage instantiations against recording stdio interface models; image dimensions bounded by a harness assumption',
+    technique='CBMC 6.11 function + loop contracts (dfcc) on the six writeImage instantiations and the six public writers (writePPM/writePGM/writePFM<T>) against recording stdio interface models; image dimensions bounded by a harness assumption',
     level="other",
-    level_text="writeImage in its six instantiations (PPM, PGM, PFM<float|vec3f|vec3fa|vec4f>) is extracted from /repo and proved by CBMC with loop contracts on its three nested loops against stdio interface models: every read of `pixel` lies inside the sizeX*sizeY elements it was given (pointer checks), every fwrite is handed a readable row of exactly N_COMP*sizeX components, exactly sizeY rows are written, the header receives (sizeX, sizeY), and -- for an arbitrary ghost row and component -- the value written is the selected channel of pixel (x, FLIP ? sizeY-1-y : y). The loops are closed by invariants (any iteration count) but the image dimensions are bounded in the harness.",
+    level_text="writeImage in its six instantiations (PPM, PGM, PFM<float|vec3f|vec3fa|vec4f>) is extracted from /repo and proved by CBMC with loop contracts on its three nested loops against stdio interface models: every read of `pixel` lies inside the sizeX*sizeY elements it was given (pointer checks), every fwrite is handed a readable row of exactly N_COMP*sizeX components, exactly sizeY rows are written, the header receives (sizeX, sizeY), and -- for an arbitrary ghost row and component -- the value written is the selected channel of pixel (x, FLIP ? sizeY-1-y : y). The loops are closed by invariants (any iteration count) but the image dimensions are bounded in the harness. The public writers writePPM / writePGM / writePFM<float|vec3f|vec3fa|vec4f> are proved on top of those contracts (calls replaced by the contract): same postconditions, and the header is written with exactly the format text of the file type (P6/P5/Pf/PF/PF4 magic, \"%i %i\", range line) -- so the pixel stride and channel count each public writer selects are part of what is proved. A second variant of each public writer (#small_images, images up to 2x2, complete by unwinding) decides the same postconditions when a writer calls a writeImage instantiation that has no contract.",
     level_note="BOUNDED in the image dimensions (sizeX, sizeY <= 32 quick / 64 thorough): the row*sizeX index products against the sizeX*sizeY allocation make the SAT problem grow with the range of the dimensions; not counted as an unbounded proof. saveLog / event tracing (the second half of the statement) is NOT verified: stream formatting over std::list/vector/unordered_map and chrono is outside the extractor's subset. stdio is an assumed interface model.",
     explanation="CBMC function contracts + loop contracts (unbounded in iteration count) with image dimensions bounded by a harness assumption; stdio modelled by recording stubs. Bounded, not a proof; the tracing half of the property is not checked at all.",
     assumptions=["stdio interface models", "allocation never fails", "image dimensions bounded (stated bound)"],
     bounded=["image dimensions sizeX, sizeY <= 32 (quick) / 64 (thorough)"],
-    unverified=["saveLog / tracing JSON", "file system behaviour", "decodability of the emitted header text"],
+    unverified=["saveLog / tracing JSON", "file system behaviour", "printf rendering of the header (the format text and its two integer arguments are checked, not the bytes fprintf produces)", "the trailing newline after the pixel rows"],
 )
